@@ -6,6 +6,15 @@ CLAIMED = {
  "C15": dict(text="Theorems (Coq, axiom-free) for ANY per-byte escape/hex table passing a decidable check: the Debug output parses back, as a Rust byte-string literal, to exactly the contents; hex output is 2 digits per byte in order and decodes back; closed by vm_compute of the check on tables regenerated on every run by executing the current crate. The remaining gap (formatter = per-byte homomorphism of that table, serde entry points) is decided by exhaustive correspondence over all singles and pairs plus random strings on every representation.",
              ref="§5 C15, §3 M7, §4.1 T4", technique="Coq proof parametric in regenerated table + vm_compute side condition; differential execution (extracted model) for the homomorphism and serde",
              note="Trusted: Coq kernel+vm_compute, extraction (ExtrOcamlBasic), harness, T4 tabulation; lexer Fmt.lex1 as the meaning of 'valid Rust byte-string literal'; serde half is correspondence-only (model of visitors is the identity on payloads)."),
+ "C09": dict(text="Coq theorems (axiom-free) by structural induction over ARBITRARY adapter trees (any depth and fragmentation; slice, Bytes, BytesMut, Cursor, VecDeque, any law-abiding foreign Buf; Chain, Take, &mut/Box): remaining = length of the denoted sequence, chunk is a prefix that is empty only at the end, advance(k) = removal of the first k bytes inside the contract and a panic outside, chunks_vectored count/prefix/non-empty laws (parametric in Take's scratch length regenerated from the source), copy_to_slice/try_copy_to_slice/copy_to_bytes/into_iter return exactly the next bytes and never run out of fuel. The model is a branch-for-branch transliteration of the crate's methods with Rust's dispatch; it is tied to the code on every run by differential execution (extracted OCaml) on random and systematic trees, and the laws are also evaluated directly on the implementation's observations, which yields failing inputs.",
+             ref="§5 C09, §3 M4, §4.2 E2", technique="Coq proof by structural induction over adapter trees + differential execution of the extracted model against the crate",
+             note="Trusted: Coq kernel, extraction, harness (tree builder over the crate's own types, Inspect trait), T3 for take.rs LEN. Modelled not verified: std's VecDeque/Cursor/IoSlice. Theorems are about the model; correspondence is sampled (random + systematic), both build profiles."),
+ "C10": dict(text="Coq theorem: for EVERY getter table and forwarding table passing the decidable check tables_ok (each method body, as resolved from the source by translator T3, equals the meaning of the method NAME: width, byte order, signedness), for every adapter tree and every chunking, get/try_get by name returns the decoding of exactly the next size bytes of the denoted sequence (so it is chunking-independent), advances by exactly that many, and with too few bytes panics / returns Err{requested, available} leaving the buffer unchanged; the crate's sign_extend is proved equal to two's-complement sign extension for nbytes 0..8. Closed by vm_compute of tables_ok on the tables regenerated from the current source on every run. Tie: exhaustive-style sweep (every getter x cuts x realisations x shortfalls x sign patterns) and random scripts, values compared with decode-by-name directly and with the model.",
+             ref="§5 C10, §3 M4 + Codec, §4.1 T3, §4.2 E3", technique="Coq proof parametric in tables regenerated from source (T3) + vm_compute side condition; differential execution",
+             note="Trusted: Coq kernel+vm_compute, extraction, T3 translator (regex reader of regular macro-call bodies; unparsed bodies are reported as a broken obligation), harness. Assumes std's from_*_bytes are the mathematical decodings, little-endian target."),
+ "C12": dict(text="Coq theorems over arbitrary nestings: den(Take n b) = first n bytes, den(Chain a b) = a then b; every consuming operation (advance, copy_*, getters, iterator, Reader::read) leaves the tree `adv k b`, whose defining equations say that each Take's limit dropped by k and each inner buffer advanced by exactly the bytes that went through it (additivity and identity-at-zero proved); Reader::read transfers min(k, remaining) next bytes and never fails. Tie: after EVERY operation of every generated script the full adapter tree is read back through limit()/get_ref()/first_ref()/last_ref() and compared with the model, incl. set_limit mid-stream at any nested Take. Write half (Limit/chain_mut/Writer) is covered by the BufMut engine once M5 is claimed.",
+             ref="§5 C12, §3 M4/M5, §4.2 E2/E4", technique="Coq proof (structural induction, adv equations) + differential state comparison after every operation",
+             note="As C09. The write half is currently correspondence/proof via C11's machinery when present; stated in evidence."),
 }
 PENDING_REASON = "not claimed yet: check under construction in this session (design in DESIGN.md §5); will be claimed once its proof and correspondence run green"
 def main():
